@@ -9,6 +9,7 @@ import (
 	"sort"
 	"strings"
 	gosync "sync"
+	"time"
 
 	ocispec "github.com/opencontainers/image-spec/specs-go/v1"
 	"oras.land/oras-go/v2/content"
@@ -45,7 +46,14 @@ type World struct {
 	Conc int // effective concurrency limit being checked (0 = do not check)
 
 	Faults bool // fault menus are choice points
-	Split  bool // begin/end points around every storage operation
+	// SlowPush: the destination's Push may (a choice that counts as a fault) take an hour of virtual time
+	// while honouring its context - it returns the context's error as soon as that is done, and stores
+	// normally otherwise (an upload that hangs until it is cancelled)
+	SlowPush bool
+	// FaultSites, when not empty, limits the fault menus to operations whose label starts with it
+	// (e.g. "dst.Push"); elsewhere the operation is a plain scheduling point
+	FaultSites string
+	Split      bool // begin/end points around every storage operation
 	// Racing: at a destination Push another writer (a second copy into the same destination) may have
 	// stored the same content in the meantime - an input choice per push, offered only when the node's
 	// successors are present (the other writer obeys link closure too). The push then meets ErrAlreadyExists.
@@ -110,7 +118,7 @@ const (
 // fault is a scheduling point plus (when enabled) a fault choice.
 func (w *World) fault(op, node string, n int) int {
 	label := op + "(" + node + ")"
-	if !w.Faults {
+	if !w.Faults || w.FaultSites != "" && !strings.HasPrefix(label, w.FaultSites) {
 		vs.Pt(label)
 		return ANormal
 	}
@@ -280,6 +288,16 @@ func (t *Dst) Push(ctx context.Context, d ocispec.Descriptor, r io.Reader) error
 	data, rerr := io.ReadAll(r)
 	if rerr != nil {
 		return rerr
+	}
+	if t.W.SlowPush && vs.ChooseAt(2, vs.KFault, "dst.Push("+nm+") slow") == 1 {
+		t.W.Do(func() { t.W.Injected = append(t.W.Injected, "dst.Push("+nm+"):slow") })
+		tm := time.NewTimer(time.Hour)
+		select {
+		case <-ctx.Done():
+			tm.Stop()
+			return ctx.Err()
+		case <-tm.C:
+		}
 	}
 	if t.W.Split {
 		vs.Pt("dst.Push(" + nm + ").store")
